@@ -279,7 +279,7 @@ pub fn main(ctx: &Ctx) {
     run_committed_replays(ctx, &C09 { part_name: "programs" });
     let cases = pair_cases(ctx);
     run_cases(ctx, &C09 { part_name: "pairs" }, "pairs", cases, true);
-    run_pbt(ctx, &C09 { part_name: "programs" }, ctx.tier.pick(20_000, 400_000));
+    run_pbt(ctx, &C09 { part_name: "programs" }, ctx.tier.pick(100_000, 1_500_000));
 }
 
 pub fn replay(ctx: &Ctx, v: &serde_json::Value) -> Option<i32> {
